@@ -2,6 +2,7 @@ package main
 
 import (
 	"fmt"
+	"go/ast"
 	"go/token"
 	"go/types"
 	"sort"
@@ -950,4 +951,127 @@ func ruleSoftmaxKernel(c *Ctx, prop string) {
 	if n < 2 {
 		c.undecided("R7", "R7:softmax-kernel:floor", "", fmt.Sprintf("%d calls of gorgonia's SoftMax/LogSoftMax found under Softmax/LogSoftmax (floor 2)", n))
 	}
+}
+
+// ---- R28: no error result is dropped in the code behind the property -------------------------------
+//
+// Every call that returns an error, in a library function reachable from the property's operators, has
+// its error value consumed (compared, returned, passed on). An error that is assigned to a shadowed
+// variable or overwritten before anyone looks at it has no use in SSA form; the function then returns a
+// stale or partial result as success.
+// errorDropAudited: explicit `_` discards of an error that were read and cannot hide a failure.
+var errorDropAudited = map[string]string{
+	"R28:error-dropped:opset13.gather:Slice#1": "data.Slice([k,k+1) on the gather axis): k comes from the index tensor, which Gather.Apply offsets and range-checks against that axis before gather() runs (obligation R9a:Gather.inputs[1] under C08); no other slicer is set",
+	"R28:error-dropped:opset13.gather:Slice#2": "out.Slice at the coordinates of the index iterator: out is allocated by Gather.Apply with exactly the shape data[:axis] + indices.shape + data[axis+1:], so every coordinate of the iterator is in range",
+}
+
+func ruleErrorsConsumed(c *Ctx, prop string) {
+	var roots []*ssa.Function
+	for _, name := range opsOfProp(prop) {
+		if oi := c.opByName(name); oi != nil {
+			for _, m := range []string{"Apply", "Init", "ValidateInputs"} {
+				if f := oi.methods[m]; f != nil {
+					roots = append(roots, f)
+				}
+			}
+		}
+	}
+	if prop == "C14" || prop == "C03" || prop == "C16" {
+		for _, f := range c.libFns {
+			if fnPkgPath(f) == pkgOps && f.Parent() == nil && f.Object() != nil && f.Object().Exported() && strings.Contains(f.Name(), "roadcast") {
+				roots = append(roots, f)
+			}
+		}
+	}
+	if prop == "C12" || prop == "C18" || prop == "C11" {
+		if di := c.decodeInfo(); di != nil {
+			roots = append(roots, di.fn)
+		}
+	}
+	var fns []*ssa.Function
+	for f := range c.reachFrom(roots) {
+		if isLibFn(f) && !strings.HasSuffix(c.fileOf(f.Pos()), ".pb.go") {
+			fns = append(fns, f)
+		}
+	}
+	sort.Slice(fns, func(i, j int) bool { return fname(fns[i]) < fname(fns[j]) })
+	n := 0
+	per := map[string]int{}
+	for _, f := range fns {
+		for _, b := range f.Blocks {
+			for _, in := range b.Instrs {
+				call, ok := in.(*ssa.Call)
+				if !ok {
+					continue
+				}
+				var sig *types.Signature
+				if call.Common().IsInvoke() {
+					sig = call.Common().Method.Type().(*types.Signature)
+				} else {
+					sig, _ = call.Common().Value.Type().Underlying().(*types.Signature)
+				}
+				if sig == nil || errResultIndex(sig) < 0 {
+					continue
+				}
+				ev := errOfCall(call)
+				used := false
+				if ev != nil {
+					for _, r := range *ev.Referrers() {
+						if _, dbg := r.(*ssa.DebugRef); !dbg {
+							used = true
+						}
+					}
+				}
+				n++
+				if used {
+					continue
+				}
+				per[fname(f)]++
+				// iterator.Next() style post statements are part of gorgonia's iteration protocol: the error only says "done"
+				if nm := callName(call); nm == "Next" && call.Common().IsInvoke() {
+					c.note("R28", fmt.Sprintf("R28:error-dropped:%s:%s#%d", fname(f), nm, per[fname(f)]), c.pos(call.Pos()), "iterator Next() error not looked at (iteration protocol: Done() is tested instead)")
+					continue
+				}
+				key := fmt.Sprintf("R28:error-dropped:%s:%s#%d", fname(f), callName(call), per[fname(f)])
+				if why, ok := errorDropAudited[key]; ok && c.blankDiscard(f, call, errResultIndex(sig)) {
+					c.discharge("R28", key, c.pos(call.Pos()), "audited blank discard: "+why)
+					continue
+				}
+				c.violate("R28", key, c.pos(call.Pos()),
+					"the error result of "+callName(call)+" is never looked at (dropped, shadowed by := in an inner scope, or overwritten): a failure of this step is returned as success with a stale or partial result")
+			}
+		}
+	}
+	c.counts["R28.error_calls"] = n
+	if n > 0 {
+		c.discharge("R28", "R28:error-calls", "", fmt.Sprintf("%d error-returning calls in %d functions behind this property: every error value is consumed (or listed above)", n, len(fns)))
+	}
+}
+
+// blankDiscard: the call's result at position idx is assigned to the blank identifier in the source.
+func (c *Ctx) blankDiscard(f *ssa.Function, call *ssa.Call, idx int) bool {
+	top := f
+	for top.Parent() != nil {
+		top = top.Parent()
+	}
+	fd := c.astFuncDecl(top)
+	if fd == nil {
+		return false
+	}
+	found := false
+	ast.Inspect(fd, func(n ast.Node) bool {
+		as, ok := n.(*ast.AssignStmt)
+		if !ok || len(as.Rhs) != 1 {
+			return true
+		}
+		ce, ok := as.Rhs[0].(*ast.CallExpr)
+		if !ok || ce.Lparen != call.Pos() || idx >= len(as.Lhs) {
+			return true
+		}
+		if id, ok := as.Lhs[idx].(*ast.Ident); ok && id.Name == "_" {
+			found = true
+		}
+		return true
+	})
+	return found
 }
